@@ -80,7 +80,17 @@ type Usage struct {
 
 // RenterCost returns the total cost of executing the RPC.
 func (u Usage) RenterCost() types.Currency {
-	return u.RPC.Add(u.Storage).Add(u.Egress).Add(u.Ingress).Add(u.AccountFunding)
+	// NOTE: the components may have been computed from host-chosen prices; a
+	// total that does not fit is reported as the largest possible cost rather
+	// than panicking
+	total := u.RPC
+	for _, c := range []types.Currency{u.Storage, u.Egress, u.Ingress, u.AccountFunding} {
+		var overflow bool
+		if total, overflow = total.AddWithOverflow(c); overflow {
+			return types.MaxCurrency
+		}
+	}
+	return total
 }
 
 // HostRiskedCollateral returns the amount of collateral the host must risk
@@ -155,10 +165,21 @@ type HostPrices struct {
 	Signature types.Signature `json:"signature"`
 }
 
+// mul64 multiplies a host-chosen price by a quantity. The prices are not
+// bounded by HostPrices.Validate, so a product that does not fit saturates at
+// the largest currency value (which no contract can pay) instead of panicking.
+func mul64(c types.Currency, n uint64) types.Currency {
+	v, overflow := c.Mul64WithOverflow(n)
+	if overflow {
+		return types.MaxCurrency
+	}
+	return v
+}
+
 // RPCReadSectorCost returns the cost of reading a sector of the given length.
 func (hp HostPrices) RPCReadSectorCost(length uint64) Usage {
 	return Usage{
-		Egress: hp.EgressPrice.Mul64(round4KiB(length)),
+		Egress: mul64(hp.EgressPrice, round4KiB(length)),
 	}
 }
 
@@ -166,15 +187,15 @@ func (hp HostPrices) RPCReadSectorCost(length uint64) Usage {
 // given sector length.
 func (hp HostPrices) RPCWriteSectorCost(sectorLength uint64) Usage {
 	return Usage{
-		Storage: hp.StoragePrice.Mul64(SectorSize).Mul64(TempSectorDuration),
-		Ingress: hp.IngressPrice.Mul64(round4KiB(sectorLength)),
+		Storage: mul64(mul64(hp.StoragePrice, SectorSize), TempSectorDuration),
+		Ingress: mul64(hp.IngressPrice, round4KiB(sectorLength)),
 	}
 }
 
 // RPCSectorRootsCost returns the cost of fetching sector roots for the given length.
 func (hp HostPrices) RPCSectorRootsCost(length uint64) Usage {
 	return Usage{
-		Egress: hp.EgressPrice.Mul64(round4KiB(32 * length)),
+		Egress: mul64(hp.EgressPrice, round4KiB(32*length)),
 	}
 }
 
@@ -182,14 +203,14 @@ func (hp HostPrices) RPCSectorRootsCost(length uint64) Usage {
 // sector.
 func (hp HostPrices) RPCVerifySectorCost() Usage {
 	return Usage{
-		Egress: hp.EgressPrice.Mul64(SectorSize),
+		Egress: mul64(hp.EgressPrice, SectorSize),
 	}
 }
 
 // RPCFreeSectorsCost returns the cost of removing sectors from a contract.
 func (hp HostPrices) RPCFreeSectorsCost(sectors int) Usage {
 	return Usage{
-		RPC: hp.FreeSectorPrice.Mul64(uint64(sectors)),
+		RPC: mul64(hp.FreeSectorPrice, uint64(sectors)),
 	}
 }
 
@@ -197,9 +218,9 @@ func (hp HostPrices) RPCFreeSectorsCost(sectors int) Usage {
 // parameter is the number of blocks until the contract's expiration height.
 func (hp HostPrices) RPCAppendSectorsCost(sectors, duration uint64) Usage {
 	return Usage{
-		Storage:          hp.StoragePrice.Mul64(SectorSize).Mul64(sectors).Mul64(duration),
-		Ingress:          hp.IngressPrice.Mul64(round4KiB(32 * sectors)),
-		RiskedCollateral: hp.Collateral.Mul64(SectorSize).Mul64(sectors).Mul64(duration),
+		Storage:          mul64(mul64(mul64(hp.StoragePrice, SectorSize), sectors), duration),
+		Ingress:          mul64(hp.IngressPrice, round4KiB(32*sectors)),
+		RiskedCollateral: mul64(mul64(mul64(hp.Collateral, SectorSize), sectors), duration),
 	}
 }
 
